@@ -3,7 +3,8 @@ use indexmap::IndexMap;
 use java_string::{JavaStr, JavaString};
 use duke::tree::annotation::{Annotation, ElementValue, ElementValuePair};
 use duke::tree::class::{ClassFile, ClassName, ClassSignature, EnclosingMethod, InnerClass, ObjClassName, ObjClassNameSlice};
-use duke::tree::field::{Field, FieldDescriptor, FieldRef, FieldSignature};
+use duke::tree::descriptor::{ParsedFieldDescriptor, Type};
+use duke::tree::field::{Field, FieldDescriptor, FieldName, FieldRef, FieldSignature};
 use duke::tree::method::{Method, MethodDescriptor, MethodNameAndDesc, MethodParameter, MethodRef, MethodSignature};
 use duke::tree::method::code::{Code, ConstantDynamic, Exception, Handle, Instruction, InstructionListEntry, InvokeDynamic, Loadable, Lv};
 use duke::tree::type_annotation::TypeAnnotation;
@@ -348,10 +349,17 @@ impl Mappable for ElementValue {
 		use ElementValue::*;
 		Ok(match self {
 			Object(x) => Object(x),
-			Enum { type_name, const_name } => Enum {
-				type_name: type_name.remap(remapper)?,
-			// TODO: this one needs remapping!
-				const_name,
+			Enum { type_name, const_name } => {
+				// The constant is a field of the enum class, and the enum class is its type.
+				let const_name = match (type_name.parse(), FieldName::try_from(const_name.clone())) {
+					(Ok(ParsedFieldDescriptor(Type::Object(enum_class))), Ok(field_name)) =>
+						remapper.map_field(&enum_class, &field_name, &type_name)?.name.into_inner(),
+					_ => const_name,
+				};
+				Enum {
+					type_name: type_name.remap(remapper)?,
+					const_name,
+				}
 			},
 			Class(class_name) => Class(remapper.map_return_desc(&class_name)?),
 			AnnotationInterface(annotation) => AnnotationInterface(annotation.remap(remapper)?),
